@@ -14,7 +14,7 @@ GENIMP = (" Second tie (regenerated on every run): translate/imp2coq.py translat
           "coq/Gen/GenImpP.v proves them equal to the hand-written impersonation model for every tape, and coq/Gen/GenImpC.v restates the C05/C14 theorems for the "
           "translated code on parsed signatures.")
 GENSIG = (" Further tie (regenerated on every run): translate/sig2coq.py translates parse/utils.py, wildcard.py, signatures/tcp.py (TCPSignature.parse and its field "
-          "parsers) and signatures/mtu.py from /repo's CURRENT source; coq/Gen/GenSigP.v proves them equal to the model, GenSigC.v restates the range / round-trip theorems "
+          "parsers), signatures/mtu.py and the printers TCPOptions.dump / dump_quirks from /repo's CURRENT source; coq/Gen/GenSigP.v proves them equal to the model, GenSigC.v restates the range / round-trip theorems "
           "for the translated code.")
 GENFILE = (" Further tie (regenerated on every run): translate/file2coq.py translates the line loop of _parse_file, _parse_section, the label classes, the record "
            "classes' label / signature dispatch, RecordsDatabase.create / add / iter_values / get_random / __len__ / _replace and Database.load from /repo's CURRENT source; coq/Gen/GenFileP.v proves that the translated loop body simulates "
